@@ -283,7 +283,7 @@ def make_http(program: dict[str, Any], *, app_kwargs: dict[str, Any] | None = No
 
 @contextlib.contextmanager
 def open_conn(program: dict[str, Any], tcfg: dict[str, Any], on_log: Any = None) -> Iterator[tuple[Any, Any, Any]]:
-    """Yield (proxy, impl, wire) for pipe | unix | http.
+    """Yield (proxy, impl, wire) for pipe | unix | shm | http.
 
     ``wire`` is a ``Tee`` (socket transports: everything the server wrote) or a
     ``RecClient`` (HTTP: one entry per turn).
@@ -291,11 +291,19 @@ def open_conn(program: dict[str, Any], tcfg: dict[str, Any], on_log: Any = None)
     from vgi_rpc.rpc import RpcConnection, RpcServer, make_pipe_pair, make_unix_pair
 
     kind = tcfg["kind"]
-    if kind in ("pipe", "unix"):
+    if kind in ("pipe", "unix", "shm"):
         proto, impl = svcgen.build(program)
-        ct, st = make_pipe_pair() if kind == "pipe" else make_unix_pair()
+        ct, st = make_unix_pair() if kind == "unix" else make_pipe_pair()
         tee = Tee(st._writer)
         st._writer = tee
+        seg = None
+        if kind == "shm":
+            # pipe carrying pointer batches, data through a shared-memory segment both ends hold
+            from vgi_rpc.rpc import ShmPipeTransport
+            from vgi_rpc.shm import ShmSegment
+
+            seg = ShmSegment.create(tcfg.get("shm_size", 1 << 20))
+            ct, st = ShmPipeTransport(ct, seg), ShmPipeTransport(st, seg)
         server = RpcServer(proto, impl)
 
         def serve() -> None:
@@ -315,6 +323,11 @@ def open_conn(program: dict[str, Any], tcfg: dict[str, Any], on_log: Any = None)
             th.join(timeout=5)
             with contextlib.suppress(Exception):
                 st.close()
+            if seg is not None:
+                with contextlib.suppress(Exception):
+                    seg.unlink()
+                with contextlib.suppress(Exception):
+                    seg.close()
     elif kind == "http":
         from vgi_rpc.http import http_connect
 
